@@ -158,6 +158,7 @@ class Inv:
     options: str = ''                # option prefix text
     joiner: Optional[dict] = None
     result_ty: Optional[tuple] = None
+    notranspose: bool = False        # sync try macro with transpose_results(false): steps hand over UNWRAPPED values
 
 
 @dataclass
@@ -353,6 +354,9 @@ def sync_cands(ctx, t, depth, tail, inner_ref=False):
     if V:
         c.append((w('then', 2), lambda: (Act('->', 'then', operands=[cb(ctx, 'm', [t], t, tf=t)]), t)))
         c.append((w('then', 0.7), lambda: (Act('->', 'then', operands=[flat_cb(ctx, t)]), TOK)))
+        if size_of(t) < 4 and not ctx.is_async:
+            c.append((w('then', 0.4), lambda: (Act('->', 'then', operands=[cb(ctx, 'at_r', [t], Res(t), failable=True, tf=t)]), Res(t))))
+            c.append((w('then', 0.4), lambda: (Act('->', 'then', operands=[cb(ctx, 'at_o', [t], Opt(t), failable=True, tf=t)]), Opt(t))))
         if not ctx.is_async:
             c.append((w('inspect', 1.5), lambda: (Act('??', 'inspect', operands=[cb(ctx, 'ins', [t], UNIT, byref=True, tf=t)]), t)))
         if size_of(t) < 5:
@@ -983,6 +987,22 @@ def gen_branch(ctx, inv, index, depth, acts_per_step, same_type=None):
                 raise Retry()
         last = (k == depth - 1)
         goal = step_goal(inv)
+        if same_type is not None and inv.notranspose:
+            # every step must END in Result<Tok, ETok>; the next step starts from the unwrapped Tok
+            if cur == TOK:
+                close_tail(acts)
+                acts = list(acts) + [Act('->', 'then', operands=[cb(ctx, 'at_r', [TOK], Res(TOK), failable=True)])]
+                cur = Res(TOK)
+            if cur != Res(TOK):
+                raise Retry()
+            if k > 0:
+                if not acts:
+                    raise Retry()
+                acts[0].deferred = True
+            steps.append(acts)
+            types.append(cur)
+            cur = TOK
+            continue
         if same_type is not None:
             acts, cur = coerce_exact_sync(ctx, acts, cur, same_type)
         else:
@@ -1223,6 +1243,9 @@ def gen_invocation(ctx, kind, is_try, is_async, profile_override=None, same_type
     p = ctx.p
     if is_try:
         inv.flavor = 'res' if is_async else ctx.rng.choice(['opt', 'res'])
+    if p.get('notranspose') and kind is None:
+        inv.flavor = 'res'
+        inv.notranspose = True
     lo, hi = p.get('branches', (1, 4))
     nb = ctx.rng.randint(lo, hi)
     dlo, dhi = p.get('depth', (1, 3))
@@ -1236,6 +1259,8 @@ def gen_invocation(ctx, kind, is_try, is_async, profile_override=None, same_type
     same = None
     if same_typed:
         same = (Opt(TOK) if inv.flavor == 'opt' else Res(TOK)) if is_try else ctx.rng.choice([Opt(TOK), Res(TOK), TOK])
+        if inv.notranspose:
+            same = Res(TOK)
         if is_async and is_try:
             same = Res(TOK)
     saved = (ctx.cur_inv, ctx.cur_branch, ctx.cur_step, ctx.is_async)
@@ -1406,7 +1431,15 @@ def ref_expr(inv, top=False):
                     L.append('    if w::is_fail(&%s) { return Err(%s.err().unwrap()); }' % (v, v))
             L.append('    unreachable!();')
             L.append('}')
-        if jmode in ('try_notranspose', 'async_try'):
+        if inv.notranspose:
+            # transpose_results(false): the step result is the joiner's already transposed Ok tuple; values go on unwrapped
+            for b in active:
+                v = var_of(inv, b)
+                if jmode == 'try_notranspose':
+                    L.append('let mut %s = w::js(%d, %s.ok().unwrap());' % (v, joiner['ev'], v))
+                else:
+                    L.append('let mut %s = %s.ok().unwrap();' % (v, v))
+        elif jmode in ('try_notranspose', 'async_try'):
             # these joiners hand back the transposed Ok tuple, stamped
             for b in active:
                 v = var_of(inv, b)
@@ -1414,7 +1447,10 @@ def ref_expr(inv, top=False):
     n = len(inv.branches)
     vs = [var_of(inv, b) for b in inv.branches]
     h = inv.handler
-    if inv.is_try:
+    if inv.is_try and inv.notranspose:
+        un = vs
+        wrap_ok = 'Ok'
+    elif inv.is_try:
         un = ['%s.unwrap()' % v for v in vs] if inv.flavor == 'opt' else ['%s.ok().unwrap()' % v for v in vs]
         wrap_ok = 'Some' if inv.flavor == 'opt' else 'Ok'
     else:
@@ -1647,7 +1683,11 @@ def gen_opts(pid, family, variant, kinds, seed, fut='::futures'):
         prof = dict(PROFILES['pos'])
         prof.update(branches=(2, 5), handler=0.3, names=0.15, captures=0.15)
         if variant == 'try_notranspose':
-            prof['depth_profile'] = lambda r, nb: [1] * nb
+            # equal depths only: a branch that finished earlier would be handed to the final transposer unwrapped
+            prof['depth_profile'] = lambda r, nb: [r.choice([1, 1, 2, 3])] * nb
+            prof['notranspose'] = True
+            prof['names'] = 0.0
+            prof['ops'] = dict(prof.get('ops', {}), then=2.0)
         else:
             prof['depth_profile'] = lambda r, nb: [r.randint(1, 3) for _ in range(nb)]
         ctx = Ctx(rng, prof)
